@@ -122,8 +122,14 @@ class World:
             s = pick("S")
             rs = [by_label[x] for x in s]
             try:
-                res = getattr(real, kind)(rs)
-                res2 = getattr(twin, kind)([n for n in twin.nodes() if lab(n) in set(s)])
+                # vertices is typed Variable | Iterable[Variable]: any kind of iterable (one-shot ones included), or a
+                # bare singleton
+                from ..y0util import as_iterable
+
+                hk = sum(op.get("S", [])) + 3 * op.get("t", 0) + len(self.pool)
+                arg = rs[0] if len(rs) == 1 and hk % 3 == 0 else as_iterable(rs, hk % 7)
+                res = getattr(real, kind)(arg)
+                res2 = getattr(twin, kind)(as_iterable([n for n in twin.nodes() if lab(n) in set(s)], (hk + 3) % 7))
             except Exception as e:
                 return {"kind": "exception", "op": op, "exc": repr(e)[:300], "graph": model.describe(), "S": list(map(_s, s))}
             want = getattr(model, kind)(s)
@@ -232,7 +238,10 @@ class World:
 
         try:
             if q in ("ancestors_inclusive", "descendants_inclusive"):
-                got, got2 = getattr(real, q)(set(rs)), getattr(twin, q)(set(ts))
+                from ..y0util import as_iterable
+
+                hk = sum(op.get("S", [])) + len(self.pool)
+                got, got2 = getattr(real, q)(as_iterable(list(rs), hk % 7)), getattr(twin, q)(as_iterable(list(ts), (hk + 2) % 7))
                 want = getattr(model, q)(s)
                 if {lab(x) for x in got} != want or {lab(x) for x in got2} != want or not isinstance(got, set):
                     return fail(names(got), sorted(map(_s, want)))
@@ -256,8 +265,11 @@ class World:
                 if {lab(x) for x in got} != want or {lab(x) for x in twin.get_markov_pillow(list(ts))} != want:
                     return fail(names(got), sorted(map(_s, want)))
             elif q == "get_markov_blanket":
-                got, want = real.get_markov_blanket(list(rs)), model.markov_blanket(s)
-                if {lab(x) for x in got} != want or {lab(x) for x in twin.get_markov_blanket(list(ts))} != want:
+                from ..y0util import as_iterable
+
+                hk = sum(op.get("S", [])) + len(self.pool)
+                got, want = real.get_markov_blanket(as_iterable(list(rs), hk % 7)), model.markov_blanket(s)
+                if {lab(x) for x in got} != want or {lab(x) for x in twin.get_markov_blanket(as_iterable(list(ts), (hk + 4) % 7))} != want:
                     return fail(names(got), sorted(map(_s, want)))
             elif q == "disorient":
                 got = real.disorient()
